@@ -30,6 +30,9 @@ def lookup(obj):
         return None
     if e is not None and e[0] is obj:
         return e[1]
+    # int.from_bytes is a fresh builtin-method object on every attribute access
+    if getattr(obj, '__self__', None) is int and getattr(obj, '__name__', '') == 'from_bytes':
+        return m_int_from_bytes
     return None
 
 
@@ -45,6 +48,8 @@ def _raise(ex, st, cls, origin):
 @model(builtins.len)
 def m_len(ex, args, kw, st, fr, node):
     v = args[0]
+    if hasattr(v, 'len_'):                         # finite-domain values (pyvc/finite.py)
+        return _out(st, v.len_())
     if isinstance(v, VSeq):
         return _out(st, VInt(slen(v.t)))
     if isinstance(v, (VList, VTuple)):
@@ -99,7 +104,8 @@ def m_enumerate(ex, args, kw, st, fr, node):
 def m_reversed(ex, args, kw, st, fr, node):
     items = ex.iter_items(args[0], st)
     if items is None:
-        raise Unsupported('reversed of symbolic')
+        from .views import RevObj
+        return _out(st, VPy(RevObj(args[0])))
     return _out(st, VList(list(reversed(items))))
 
 
@@ -269,6 +275,17 @@ def m_hasattr(ex, args, kw, st, fr, node):
     o, n = args
     if isinstance(o, VPy) and isinstance(n, VStr):
         return _out(st, VBool(z3.BoolVal(hasattr(o.obj, n.s))))
+    if isinstance(o, VObj) and isinstance(n, VStr):
+        import inspect
+        if (o.oid, n.s) in st.heap:
+            return _out(st, VBool(z3.BoolVal(True)))
+        if inspect.isclass(o.cls) and any(n.s in k.__dict__ for k in o.cls.__mro__):
+            return _out(st, VBool(z3.BoolVal(True)))
+        if ex.reg.field_type(o.cls, n.s) is not None:
+            return _out(st, VBool(z3.BoolVal(True)))
+        if o.oid in st.fresh_objs:
+            return _out(st, VBool(z3.BoolVal(False)))
+        raise Unsupported('hasattr(%r, %s): attribute presence unknown for a parameter object' % (o, n.s))
     raise Unsupported('hasattr')
 
 
@@ -354,6 +371,8 @@ def call_method(ex, recv, name, args, kw, st, fr, node):
                                          z3.ForAll([k], z3.Implies(z3.And(0 <= k, k < slen(p.t)),
                                                                    sat(recv.t, k) == sat(p.t, k))))))
     if isinstance(recv, VStr):
+        if name in ('lower', 'upper', 'strip') and not args and not kw:
+            return _out(st, VStr(getattr(recv.s, name)()))      # VStr is always a concrete string: exact
         if name in ('format', 'join', 'lower', 'upper', 'strip'):
             return _out(st, VStr('<str>'))
         if name == 'encode':
@@ -391,6 +410,8 @@ def mutating_method(ex, recv_node, recv, name, args, kw, st, fr, node):
     """Methods that mutate a bytearray/list in place: the executor rebinds the
     receiver expression (aliasing between distinct names is not modelled)."""
     line = getattr(node, 'lineno', 0)
+    if hasattr(recv, 'mutate_'):                   # finite-domain values (pyvc/finite.py)
+        return recv.mutate_(ex, name, args, st, line)
     if isinstance(recv, VSeq):
         if name == 'append':
             v = ex._as_int(args[0])
@@ -470,8 +491,24 @@ def int_to_bytes(ex, x, args, kw, st, line):
     if not isinstance(order, VStr) or order.s not in ('big', 'little'):
         raise Unsupported('to_bytes byteorder')
     n = length.concrete()
-    if n is None:
-        raise Unsupported('to_bytes with symbolic length')
+    if n is None or n < 0:
+        # symbolic length: result is the axiomatised big-endian encoding s_be(x, length)
+        # CPython: ValueError('length argument must be non-negative') is checked first, then OverflowError
+        if order.s != 'big':
+            raise Unsupported('to_bytes little-endian with symbolic length')
+        res = []
+        ok, bad = ex.split(st, length.t >= 0)
+        if bad is not None:
+            res += _raise(ex, bad, ValueError, 'to_bytes negative length line %d' % line)
+        if ok is not None:
+            ok2, bad2 = ex.split(ok, z3.And(x.t >= 0, x.t < smt.pow256(length.t)))
+            if bad2 is not None:
+                res += _raise(ex, bad2, OverflowError, 'to_bytes line %d' % line)
+            if ok2 is not None:
+                r = VSeq(smt.s_be(x.t, length.t), 'byte', 'bytes')
+                ok2.assume(z3.And(slen(r.t) == length.t, isb(r.t)))
+                res += _out(ok2, r)
+        return res
     res = []
     ok, bad = ex.split(st, z3.And(x.t >= 0, x.t < (1 << (8 * n))))
     if bad is not None:
@@ -482,6 +519,31 @@ def int_to_bytes(ex, x, args, kw, st, line):
             bs.reverse()
         res += _out(ok, seq_from_items(bs, 'byte', 'bytes'))
     return res
+
+
+def m_int_from_bytes(ex, args, kw, st, fr, node):
+    """int.from_bytes(b, 'big') for a bytes-like b: the big-endian value s_val(b)
+    (element-wise definition for len(b) <= smt.BE_EXPLICIT by axiom)."""
+    v = args[0] if args else kw['bytes']
+    order = args[1] if len(args) > 1 else kw.get('byteorder', VStr('big'))
+    if not isinstance(order, VStr) or order.s != 'big' or kw.get('signed') is not None:
+        raise Unsupported('int.from_bytes byteorder/signed')
+    if isinstance(v, (VList, VTuple)):
+        v = ex._list_to_seq(v, st)
+    if not isinstance(v, VSeq):
+        raise Unsupported('int.from_bytes(%r)' % (v,))
+    if v.elem != 'byte':
+        raise Unsupported('int.from_bytes of a list of ints')
+    r = VInt(smt.s_val(v.t))
+    n = z3.simplify(slen(v.t))
+    if z3.is_int_value(n) and n.as_long() <= smt.BE_EXPLICIT:
+        k = n.as_long()
+        tot = z3.IntVal(0)
+        for i in range(k):
+            tot = tot + sat(v.t, i) * z3.IntVal(256 ** (k - 1 - i))
+        st.assume(r.t == tot)                       # instance of the s_val definition axiom
+    st.assume(z3.Implies(isb(v.t), z3.And(r.t >= 0, r.t < smt.pow256(slen(v.t)))))
+    return _out(st, r)
 
 
 @model(struct.pack)
@@ -506,3 +568,47 @@ def m_pack(ex, args, kw, st, fr, node):
             bs += [VInt((v.t / (1 << (8 * (n - 1 - i)))) % 256) for i in range(n)]
         res += _out(ok, seq_from_items(bs, 'byte', 'bytes'))
     return res
+
+
+import hmac as _hmac
+
+
+@model(_hmac.compare_digest)
+def m_compare_digest(ex, args, kw, st, fr, node):
+    """hmac.compare_digest(a, b) on bytes-like values: True iff equal content (timing is not modelled)."""
+    a, b = args
+    if isinstance(a, VSeq) and isinstance(b, VSeq):
+        st.assume(smt.ext_witness_eq(a.t, b.t))
+        return _out(st, VBool(a.t == b.t))
+    raise Unsupported('compare_digest(%r, %r)' % (a, b))
+
+
+# ---------------------------------------------------------------- super(Class, self)
+class SuperProxy(object):
+    """super(cls, obj): attribute lookup continues after `cls` in type(obj).__mro__
+    (only methods are resolved this way; data attributes live on the heap object)."""
+
+    def __init__(self, cls, obj):
+        self._cls = cls
+        self._obj = obj
+
+    def __getattr__(self, name):
+        from .executor import BoundMethod
+        import types
+        ocls = self._obj.cls
+        mro = list(ocls.__mro__)
+        for k in mro[mro.index(self._cls) + 1:]:
+            if name in k.__dict__:
+                raw = k.__dict__[name]
+                if isinstance(raw, types.FunctionType):
+                    return BoundMethod(self._obj, raw, k)
+                raise AttributeError(name)
+        raise AttributeError(name)
+
+
+@model(builtins.super)
+def m_super(ex, args, kw, st, fr, node):
+    if len(args) == 2 and isinstance(args[0], VPy) and isinstance(args[1], VObj) \
+            and isinstance(args[1].cls, type) and args[0].obj in args[1].cls.__mro__:
+        return _out(st, VPy(SuperProxy(args[0].obj, args[1])))
+    raise Unsupported('super() form')
